@@ -593,3 +593,22 @@ func errIs(key, errTerm, sentinel string) gate.Gate {
 		gate.Cmp("", errTerm, token.EQL, sentinel),
 		gate.CallBool("", "errors.Is", true, errTerm, sentinel))
 }
+
+// beWrite: the big-endian encoding of a value (width bytes) is written to
+// dest, in any of the forms binary.Write(dest, BigEndian, v);
+// PutUintN(arr[:], v) + dest.Write(arr[:]); dest.Write(EncodeBytesUint(v, n)).
+// ok = the write's error is honoured (CallOK) rather than merely executed.
+func beWrite(key, dest string, width int, val string, ok bool) gate.Gate {
+	mk := func(callee string, args ...string) gate.Gate {
+		if ok {
+			return gate.CallOK("", callee, args...)
+		}
+		return gate.CallInstr("", callee, args...)
+	}
+	arr := fmt.Sprintf("{be%d(%s)|slice(be%d(%s),*)}", width, val, width, val)
+	enc := fmt.Sprintf("call:bigendian.EncodeBytesUint(%s,const:%d)#0", val, width)
+	return either(key, fmt.Sprintf("%d-byte big-endian %s written to %s", width, val, dest),
+		mk("binary.Write", dest, "global:binary.BigEndian", val),
+		mk("(*bytes.Buffer).Write", dest, arr), mk("invoke:io.Writer.Write", dest, arr), mk("(*bundle.CountingWriter).Write", dest, arr),
+		mk("(*bytes.Buffer).Write", dest, enc), mk("invoke:io.Writer.Write", dest, enc))
+}
